@@ -181,14 +181,14 @@ def run_case(case):
         leg["result"] = result_obs(res)
         # the oracle: the resampler's own kd-tree queried once with all valid target pixels (one batch, no chunking)
         kdt = r.delayed_kdtree.compute()
-        n = int(kdt.n)
+        n = int(kdt.n) if kdt is not None else 0      # no kd-tree when no source pixel is valid
         leg["n"] = n
         tl, tt = tgt_x.get_lonlats(chunks=pyresample.CHUNK_SIZE)
         tl_c, tt_c = dask.compute(tl, tt)
         voi_flat = voi_c.ravel()
         mask_c = None if mask_np is None else mask_np.ravel()[vii_c.ravel()]
         raw = np.full(voi_flat.shape, n, dtype=np.int64)
-        if voi_flat.any():
+        if voi_flat.any() and kdt is not None:
             coords = lonlat2xyz(tl_c.ravel()[voi_flat], tt_c.ravel()[voi_flat])
             dist, idx = kdt.query(coords, k=1, eps=0, distance_upper_bound=radius, mask=mask_c)
             raw[voi_flat] = idx
